@@ -1087,9 +1087,11 @@ Qed.
 Lemma to_offline_i fz c : hoare (Inv fz None c) (to_offline c) (fun c' => Inv fz None c').
 Proof.
   unfold to_offline.
-  destruct (k_wsem c) eqn:W; try (apply hoare_ret; intros m G H; exact H);
-    (eapply hoare_bind; [apply hoare_tell; exact I|]; intros u; apply hoare_ret; intros m G H;
-     eapply Inv_same; [apply wpj_break_pending|]; eapply InvP_drop; [exact H|auto]).
+  destruct (k_wsem c) eqn:W;
+    try (eapply hoare_bind; [apply hoare_tell; exact I|]; intros u; apply hoare_ret; intros m G H;
+         eapply Inv_same; [apply wpj_break_pending|]; eapply InvP_drop; [exact H|auto]).
+  eapply hoare_bind; [apply hoare_tell; exact I|]. intros u. apply hoare_ret. intros m G H.
+  eapply Inv_same; [|exact H]. reflexivity.
 Qed.
 
 Lemma ispec_bind_off {B} fz c (k : client -> M (client * B)) :
